@@ -8,6 +8,16 @@ CHECKS = {
         text="Machine-checked theorems (Properties/C13.v) over a transliteration of indexToCIDRBlock/getIndexForIP/getBeginningAndEndIndices with the uint32/uint64 wrap-around written out, for every geometry of the domain, every index, every address; tied to the Go code by running model and real functions on all 2,617 geometries each run.",
         note="Trusted: Coq kernel, extraction, OCaml/Go/Python drivers; model=code agreement is sampled per run (all geometries, selected indices/addresses). IPv6 ranges meeting ::ffff:0:0/96 are outside the theorems' domain (known finding K1).",
         ref="§5 C13"),
+    "C14": dict(
+        technique="Coq proof (pool invariant + refinement to a set of block numbers for all op sequences; NextCandidate completeness) + differential correspondence with full snapshots + reference-set monitor + exhaustive small capacities",
+        text="Theorems (Properties/C14.v) over a statement-by-statement model of NewMultiCIDRSet/Occupy/Release/NextCandidate: every op sequence on every pool of the domain keeps the invariant and refines the set machine; tied to the Go code by comparing counter, cursor and sorted keys after every op.",
+        note="Trusted: Coq kernel, extraction, drivers; agreement model/code sampled per run (2,000 random sequences + every reachable state x op for capacity <= 4). Domain: geometries of C13 not meeting ::ffff:0:0/96.",
+        ref="§5 C14"),
+    "C19": dict(
+        technique="Coq proof (ghost metric invariant over all op sequences) + differential correspondence on values read from prometheus.DefaultGatherer + /metrics endpoint sub-check",
+        text="Theorems (Properties/C19.v): after every op sequence on a pool configured once max_cidrs = capacity, allocations - releases = used = distinct used blocks, usage = used/capacity, redundant ops counted once; the real counters are read from the default gatherer after every op and compared with the model's ghost series; the /metrics handler is fetched over loopback once.",
+        note="Trusted: Prometheus client library and promhttp (exercised, not modelled); unique range string per case (the property's proviso); endpoint sub-check is a test and is skipped if loopback is unavailable.",
+        ref="§5 C19"),
 }
 
 NOT_APPLICABLE = []
